@@ -571,6 +571,7 @@ impl Machine {
         // if an exception is thrown.
 
         let stub_b = self.machine_st.stack.allocate_or_frame(0)?;
+        let reserved_h = self.machine_st.heap.reserved_prefix_cell_len();
         let or_frame = self.machine_st.stack.index_or_frame_mut(stub_b);
 
         or_frame.prelude.num_cells = 0;
@@ -581,7 +582,9 @@ impl Machine {
         or_frame.prelude.boip = 0;
         or_frame.prelude.biip = 0;
         or_frame.prelude.tr = 0;
-        or_frame.prelude.h = 0;
+        // NOT 0: the cells below this offset hold the pre-stored resource error, which
+        // `throw_resource_error` reads whenever an allocation fails later on.
+        or_frame.prelude.h = reserved_h;
         or_frame.prelude.b0 = 0;
         or_frame.prelude.attr_var_queue_len = 0;
 
